@@ -1,45 +1,73 @@
-"""C01 — relayed byte streams arrive exactly once, in order, unmodified."""
+"""C01 — relayed byte streams arrive exactly once, in order, unmodified.
+
+ghost per connection object c:  wire = bytes the kernel accepted from c (E-SEND),
+Q := wire + flat(buffer) (everything ever queued), rx = bytes received from c's peer (E-RECV).
+Representation invariant: _num_buffer == len(buffer)."""
 from pyvc.engine import LoopSpec
-from . import common
+from . import common, handler, proxyplugin, C07
 
 F = 'proxy/core/connection/connection.py'
-INV = [('num', 'self._num_buffer == len(self.buffer)'),
-       ('repr', 'self.wire + flat(self.buffer) == self.Q')]
+SV = 'proxy/http/proxy/server.py'
+EXPLANATION = ('buffer law proved for every interleaving of queue/flush with every short-write / would-block outcome '
+               '(the outcomes are universally quantified inside flush); relay laws proved per handler step')
+ASSUMPTIONS = ['user plugins return the chunk they were given (precondition of the property)',
+               'connection pool disabled on the relay contracts (requires not flags.enable_conn_pool)']
 
 
 def build(reg):
-    common.add_flat(reg)
-    common.add_tcp_connection(reg)
-    targets = []
-    targets.append(reg.contract(
-        F, 'TcpConnection.queue', params={'mv': 'mv'}, self_cls='TcpConnection', inv=INV[:1],
-        modifies=['self.buffer', 'self._num_buffer'],
-        ensures=[('append', 'self.buffer == old(self.buffer) + [mv]'),
-                 ('wire', 'self.wire == old(self.wire)'),
-                 ('stream', 'self.wire + flat(self.buffer) == old(self.wire) + flat(old(self.buffer)) + mv')],
-        lemmas=['flat(old(self.buffer) + [mv]) == flat(old(self.buffer)) + mv'],
-        note='lemma flat_snoc is proved by induction (lemmas/flat_snoc)'))
-    targets.append(reg.contract(
-        F, 'TcpConnection.has_buffer', self_cls='TcpConnection', inv=INV[:1], modifies=[], result='bool',
-        ensures=[('iff', 'result == (len(self.buffer) != 0)'), ('frame', 'unchanged(self.buffer, self._num_buffer, self.wire)')]))
-    targets.append(reg.contract(
-        F, 'TcpConnection.flush', params={'max_send_size': ('opt', 'int')}, self_cls='TcpConnection', inv=INV[:1],
-        result='int', modifies=['self.buffer', 'self._num_buffer', 'self.wire'],
-        requires=[('max', 'isnone(max_send_size) or max_send_size >= 0')],
-        ensures=[
-            ('stream', 'self.wire + flat(self.buffer) == old(self.wire) + flat(old(self.buffer))'),
-            ('empty', 'len(old(self.buffer)) == 0 ==> (result == 0 and unchanged(self.buffer, self.wire))'),
-            ('result', '0 <= result and self.wire == old(self.wire) + old(self.buffer)[0][:result] '
-                       'or (result == 0 and self.wire == old(self.wire))'),
-            ('shape', 'len(old(self.buffer)) > 0 ==> ('
-                      'self.buffer == old(self.buffer) or '
-                      'self.buffer == old(self.buffer)[1:] or '
-                      'self.buffer == [old(self.buffer)[0][len(self.wire) - len(old(self.wire)):]] + old(self.buffer)[1:])'),
-            ('prefix', 'self.wire[:len(old(self.wire))] == old(self.wire)'),
-            ('progress', 'result > 0 ==> len(flat(self.buffer)) < len(flat(old(self.buffer)))'),
-        ],
-        raises={'OSError': [('unchanged', 'unchanged(self.buffer, self._num_buffer, self.wire)')]}))
-    return targets
+    T = C07.build(reg)          # handler tables + client-side flush/teardown contracts (also proved here)
+    proxyplugin.add_proxy_plugin(reg, hooks='identity')
+    INV = handler.CONN_INV
+    # ---- the send buffer
+    q = reg.contracts['TcpConnection.queue']
+    q.ensures += [('wire', 'self.wire == old(self.wire)'),
+                  ('stream', 'self.wire + flat(self.buffer) == old(self.wire) + flat(old(self.buffer)) + mv')]
+    q.lemmas = ['flat(old(self.buffer) + [mv]) == flat(old(self.buffer)) + mv']
+    T.append(q)
+    hb = reg.contracts['TcpConnection.has_buffer']
+    hb.ensures += [('frame', 'unchanged(self.buffer, self._num_buffer, self.wire)')]
+    T.append(hb)
+    fl = reg.contracts['TcpConnection.flush']
+    fl.ensures += [
+        ('result', '0 <= result and self.wire == old(self.wire) + old(self.buffer)[0][:result] '
+                   'or (result == 0 and self.wire == old(self.wire))'),
+        ('shape', 'len(old(self.buffer)) > 0 ==> ('
+                  'self.buffer == old(self.buffer) or self.buffer == old(self.buffer)[1:] or '
+                  'self.buffer == [old(self.buffer)[0][len(self.wire) - len(old(self.wire)):]] + old(self.buffer)[1:])'),
+        ('progress', 'result > 0 ==> len(flat(self.buffer)) < len(flat(old(self.buffer)))')]
+    T.append(fl)
+    # ---- relay: upstream -> client
+    PRE = proxyplugin.PP_PRE + [('no-pool', 'not self.flags.enable_conn_pool')]
+    reg.contract(SV, 'HttpProxyPlugin._tls_intercept_enabled', self_cls='HttpProxyPlugin', assumed=True, result='bool',
+                 modifies=[], raises={}, note='pure predicate over flags and plugin opt-outs (C11)')
+    reg.contract(SV, 'HttpProxyPlugin.handle_pipeline_response', params={'raw': 'mv'}, self_cls='HttpProxyPlugin',
+                 assumed=True, modifies=['self.pipeline_response'], raises={},
+                 note='bookkeeping only (A-PARSE)')
+    CM = ['self.client.buffer', 'self.client._num_buffer']
+    DELTA = 'self.upstream.rx[len(old(self.upstream.rx)):]'
+    UM = ['self.upstream.buffer', 'self.upstream._num_buffer', 'self.upstream.wire',
+          'self.upstream.rx', 'self.upstream.dead']
+    T.append(reg.contract(
+        SV, 'HttpProxyPlugin.read_from_descriptors', params={'r': ('list', 'int')}, self_cls='HttpProxyPlugin',
+        requires=PRE, result='bool',
+        modifies=CM + UM + ['self.upstream', 'self.response.total_size', 'self.pipeline_response'] +
+        ['self.response.' + f for f in proxyplugin.PARSER_FIELDS if f not in ('type', 'total_size')],
+        raise_modifies=UM,
+        prune=True,
+        ensures=[('relay-exactly-once-in-order',
+                  '(not isnone(old(self.upstream)) and not isnone(self.upstream)) ==> '
+                  '((len(%s) > 0 and self.client.buffer == old(self.client.buffer) + [mv(%s)]) or '
+                  ' (len(%s) == 0 and self.client.buffer == old(self.client.buffer)))' % (DELTA, DELTA, DELTA)),
+                 ('client-wire-untouched', 'self.client.wire == old(self.client.wire)'),
+                 ('client-repr', 'self.client._num_buffer == len(self.client.buffer)'),
+                 ('nothing-else-queued', 'isnone(old(self.upstream)) ==> self.client.buffer == old(self.client.buffer)'),
+                 ('upstream-untouched', '(not isnone(old(self.upstream)) and not isnone(self.upstream)) ==> '
+                                        'unchanged(self.upstream.buffer, self.upstream.wire)')],
+        raises={'TimeoutError': []},
+        loops={0: LoopSpec(inv=[], modifies=['teardown']),
+               1: LoopSpec(index='k', snapshot=['raw'], modifies=['raw'],
+                           inv=['not isnone(raw)', 'raw == pre_raw'])}))
+    return T
 
 
 def lemmas(reg, ex):
